@@ -29,17 +29,21 @@ RULE = (
     "on a partial unique index, on several at once, duplicates within the batch), 1-2 ON CONFLICT clauses (DO NOTHING with/without target, "
     "DO UPDATE with index_elements as strings or columns, index_where, set_ of literals / excluded.col / target.col arithmetic / per-row "
     "bindparam, where=), executed as single, executemany, multi-VALUES and executemany+RETURNING (sort_by_parameter_order on/off, page size "
-    "1-5, permuting cursor). Non-trivial: the batch has both conflicting and non-conflicting sets, or a fired SET references excluded, or "
+    "1-5, permuting cursor); pg_on_sqlite: same programs through postgresql.insert + psycopg2 dialect, statements executed on raw SQLite; "
+    "mysql_clause: drawn ON DUPLICATE KEY UPDATE set-lists (kwargs/dict/ordered tuples) x 6 drivers x VALUES()/alias form. Non-trivial: the batch has both conflicting and non-conflicting sets, or a fired SET references excluded, or "
     "a where/index_where decides; distinct = canonical JSON of the case"
 )
 ASSUMPTIONS = [
     "SQLite 3.40 upsert semantics are the trusted base: clauses are tested in order, the first whose target is violated fires; a targetless "
     "last clause catches any remaining uniqueness violation; any other violation raises (IntegrityError); rows of one statement are processed "
-    "in VALUES order, each seeing the previous ones (model validated against raw sqlite3 separately)",
+    "in VALUES order, each seeing the previous ones (rules probed on raw sqlite3 and stated in dialects/sqlite/base.py 'Specifying Multiple ON CONFLICT Clauses')",
     "NULLs never conflict; a partial unique index only constrains rows satisfying its predicate",
     "after an IntegrityError only 'raised in both' and the rolled-back table are compared (how much of an executemany ran is driver specific)",
     "PostgreSQL tier executes the psycopg2-dialect rendering on SQLite, so PostgreSQL-only semantics (cannot affect a row twice, ON CONSTRAINT) "
     "are out of scope; MySQL tier checks the rendered clause structurally and by evaluation, never against a server",
+    "MySQL tier: assignment keys are column-key strings (documented form); the MySQL 8 row-alias form is switched on by setting the dialect flag that "
+    "initialize() derives from the server version; MySQL evaluates ON DUPLICATE KEY UPDATE assignments left to right",
+    "per-row bindparam() in DO UPDATE SET is in scope (issue #13130 handling in SQLCompiler._deliver_insertmanyvalues_batches)",
 ]
 
 COLS = ["id", "u", "a", "b", "p", "act", "v", "note"]
@@ -84,7 +88,7 @@ def _ev(e, tgt, exc, bp):
         return exc[e[1]]
     if k == "tgt":
         return tgt[e[1]]
-    if k == "bp":
+    if k in ("bp", "bpd"):
         return bp[e[1]]
     if k == "add":
         x, y = _ev(e[1], tgt, exc, bp), _ev(e[2], tgt, exc, bp)
@@ -147,9 +151,17 @@ def model_apply(rows, r, clauses, bp, trace):
 
 
 def _uses(e, kind):
-    if e[0] == kind:
+    if e[0] == kind or (kind == "bp" and e[0] == "bpd"):
         return True
     return any(isinstance(x, list) and _uses(x, kind) for x in e[1:])
+
+
+def _subst(e, old, new):
+    if not isinstance(e, list):
+        return e
+    if e and e[0] == old:
+        return [new] + e[1:]
+    return [_subst(x, old, new) for x in e]
 
 
 # ------------------------------------------------------------------ building the real thing
@@ -182,6 +194,8 @@ def _expr(sa, e, t, stmt, excl):
         return t.c[e[1]]
     if k == "bp":
         return sa.bindparam(e[1], type_=t.c.v.type)
+    if k == "bpd":  # a bindparam that carries a default value, overridden by every parameter set
+        return sa.bindparam(e[1], -1, type_=t.c.v.type)
     if k == "add":
         x, y = _expr(sa, e[1], t, stmt, excl), _expr(sa, e[2], t, stmt, excl)
         if not hasattr(x, "__clause_element__") and not isinstance(x, sa.sql.ClauseElement):
@@ -250,11 +264,41 @@ def _normalize_case(case):
     return clauses
 
 
-def _rows_from(specs, with_id, prefix):
+def _rows_from(specs, with_id, prefix, clauses=(), pool=()):
+    """concrete rows from intent specs [intent, ref, v, act, unull]: every row starts with values that collide with nothing and then copies
+    the key of constraint `intent` from an earlier row (existing rows + previous rows of the batch), so programs are valid by construction"""
     out = []
-    for i, s in enumerate(specs):
-        out.append({"id": s[0] if with_id else None, "u": None if s[1] is None else "u%d" % s[1], "a": s[2], "b": s[3], "p": s[4], "act": s[5],
-                    "v": s[6], "note": "%s%d" % (prefix, i)})
+    pool = list(pool)
+    base = 100 if prefix == "n" else 0
+    for i, sp in enumerate(specs):
+        intent, ref, v, act, unull = sp
+        ix = base + i
+        r = {"id": (ix + 1) if with_id else None, "u": None if unull else "u%d" % ix, "a": ix, "b": ix % 3, "p": ix, "act": act, "v": v,
+             "note": "%s%d" % (prefix, i)}
+        if intent in ("c0", "c1"):
+            k = min(int(intent[1]), len(clauses) - 1) if clauses else 0
+            intent = clauses[k].get("target") if clauses and clauses[k].get("target") else ["id", "u", "ab", "pp"][ref % 4]
+        elif intent == "other":  # a constraint no clause names (raises unless a targetless clause catches it)
+            named = {cl.get("target") for cl in clauses}
+            rest = [c for c in ["id", "u", "ab", "pp"] if c not in named]
+            intent = rest[ref % len(rest)] if rest else "none"
+        cands = [o for o in pool if intent != "pp" or o["act"] == 1]
+        if intent == "u":
+            cands = [o for o in cands if o["u"] is not None]
+        if intent != "none" and cands:
+            o = cands[ref % len(cands)]
+            if intent == "id" and with_id:
+                r["id"] = o["id"]
+            elif intent == "u":
+                r["u"] = o["u"]
+            elif intent == "ab":
+                r["a"], r["b"] = o["a"], o["b"]
+            elif intent == "pp":
+                r["p"], r["act"] = o["p"], 1
+            elif intent == "id+u" and with_id and o["u"] is not None:
+                r["id"], r["u"] = o["id"], o["u"]
+        out.append(r)
+        pool.append(r)
     return out
 
 
@@ -278,7 +322,7 @@ def _seed_existing(specs):
     """existing rows: keep those the constraints accept"""
     table = []
     for r in _rows_from(specs, True, "e"):
-        if r["id"] is None or _violations(table, r):
+        if _violations(table, r):
             continue
         table.append(r)
     return table
@@ -319,6 +363,10 @@ class _PgOnSqlite:
     def result_for(self, statement, parameters):
         stl = statement.lstrip()
         if stl[:6].upper() != "INSERT":
+            return None
+        if isinstance(parameters, list):  # cursor.executemany()
+            for one in parameters:
+                self.result_for(statement, one)
             return None
         sql = " ".join(statement.split())
         params = list(parameters or ())
@@ -371,15 +419,28 @@ def _run(case, ctx, backend):
     mode = case["mode"]
     with_id = case.get("with_id", True)
     existing = _seed_existing(case["existing"])
-    rows = _rows_from(case["rows"], with_id, "n")
+    rows = _rows_from(case["rows"], with_id, "n", clauses, existing)
     if backend == "sqlite" and mode in ("many", "many_returning") and len(rows) > 1 and any(cl.get("target") == "pp" for cl in clauses) and not case.get("pinned"):
         # known finding: the SQLite compiler renders index_where with literal_execute, which executemany refuses
         ctx.exclude("index_where (partial index target) with executemany on SQLite (known finding)")
         mode = {"many": "multi_values", "many_returning": "multi_values_returning"}[mode]
     if mode in ("single_params", "single_values"):
         rows = rows[:1]
-    uses_bp = any(cl["action"] == "update" and (any(_uses(e, "bp") for _, e in cl["set"]) or (cl.get("where") and any(isinstance(x, list) and _uses(x, "bp") for x in cl["where"][1:])))
-                  for cl in clauses)
+    upd = [cl for cl in clauses if cl["action"] == "update"]
+    pinned = bool(case.get("pinned"))
+    sort = bool(case.get("sort"))
+    if any(_uses(e, "bpd") for cl in upd for _, e in cl["set"]) and not pinned:
+        # known finding: a SET bindparam that has a default value is not detected as per-row (has_upsert_bound_parameters) -> batched with the first row's value
+        ctx.exclude("DO UPDATE SET bindparam with a default value + executemany RETURNING (known finding)")
+        for cl in upd:
+            cl["set"] = [[c, _subst(e, "bpd", "bp")] for c, e in cl["set"]]
+    bp_in_where = any(cl.get("where") and any(isinstance(x, list) and _uses(x, "bp") for x in cl["where"][1:]) for cl in upd)
+    bpd_in_set = any(_uses(e, "bpd") for cl in upd for _, e in cl["set"])
+    if bp_in_where and mode == "many_returning" and not sort and len(rows) > 1 and not pinned:
+        # known finding: per-row bindparam in DO UPDATE .. WHERE is batched by insertmanyvalues with the first row's value
+        ctx.exclude("per-row bindparam in DO UPDATE WHERE + batched executemany RETURNING (known finding)")
+        sort = True
+    uses_bp = bp_in_where or any(_uses(e, "bp") for cl in upd for _, e in cl["set"])
     bpvals = [{"bpv": (case.get("bp_seed", 0) + 7 * i) % 23} for i in range(len(rows))]
     if mode in ("multi_values", "multi_values_returning", "single_values"):
         bpvals = [bpvals[0]] * len(rows)  # one statement, one value for the bound parameter
@@ -425,7 +486,6 @@ def _run(case, ctx, backend):
             stmt = _apply_clauses(sa, sl_insert(t), t, clauses, case.get("names_as", "col"), case.get("set_keys_as", "str"))
             keys = COLS if with_id else COLS[1:]
             plist = [{k: r[k] for k in keys} for r in rows]
-            sort = bool(case.get("sort"))
             returning = mode in ("many_returning", "multi_values_returning") or (mode.startswith("single") and case.get("single_returning"))
             if returning:
                 stmt = stmt.returning(*[t.c[c] for c in COLS], **({"sort_by_parameter_order": True} if (sort and mode == "many_returning") else {}))
@@ -473,7 +533,11 @@ def _run(case, ctx, backend):
             want = _snapshot([tuple(r[c] for c in COLS) for r in m_table])
             if after != want:
                 sig = f"C56/{backend}/table-state/" + mode
-                if uses_bp and mode in ("many", "many_returning"):
+                if mode == "many_returning" and bpd_in_set:
+                    sig = "C56/upsert-bound-param/set-default-valued-bindparam-batched"
+                elif mode == "many_returning" and bp_in_where and not sort:
+                    sig = "C56/upsert-bound-param/where-clause-batched"
+                elif uses_bp and mode in ("many", "many_returning"):
                     sig = f"C56/{backend}/table-state/bound-set-param/" + mode
                 raise Violation(sig, f"table differs from the insert-or-update model ({mode}, clauses {clauses}, trace {trace})", observed=after, expected=want)
             if returning:
@@ -492,16 +556,222 @@ def _run(case, ctx, backend):
             srv.raw.close()
 
 
+# ------------------------------------------------------------------ MySQL / MariaDB ON DUPLICATE KEY UPDATE (structural + evaluated)
+MYSQL_DRIVERS = {
+    "mysql_pymysql": "mysql+pymysql://", "mysql_mysqldb": "mysql+mysqldb://", "mysql_connector": "mysql+mysqlconnector://",
+    "mysql_aiomysql": "mysql+aiomysql://", "mariadb_connector": "mariadb+mariadbconnector://", "mariadb_pymysql": "mariadb+pymysql://",
+}
+
+
+class _ClauseEval:
+    """evaluates the right-hand side of one rendered assignment: VALUES(col) | new.col | t.col | col | placeholder | NULL | (a + b ..) | concat(a, b ..)"""
+
+    def __init__(self, text, base, positions, cur, proposed, alias):
+        self.t, self.base, self.pos_map, self.cur, self.prop, self.alias = text, base, positions, cur, proposed, alias
+        self.i = 0
+        self.binds = 0
+
+    def ws(self):
+        while self.i < len(self.t) and self.t[self.i] == " ":
+            self.i += 1
+
+    def expr(self):
+        v = self.term()
+        self.ws()
+        while self.i < len(self.t) and self.t[self.i] == "+":
+            self.i += 1
+            w = self.term()
+            v = None if v is None or w is None else v + w
+            self.ws()
+        return v
+
+    def term(self):
+        self.ws()
+        t, i = self.t, self.i
+        if self.base + i in self.pos_map:
+            end, val, _ = self.pos_map[self.base + i]
+            self.i = end - self.base
+            self.binds += 1
+            return val
+        if t.startswith("(", i):
+            self.i += 1
+            v = self.expr()
+            self.ws()
+            if not t.startswith(")", self.i):
+                raise du.ParseError(f"expected ) at {self.i} in {t!r}")
+            self.i += 1
+            return v
+        m = re.compile(r"concat\(").match(t, i)
+        if m:
+            self.i = m.end()
+            parts = [self.expr()]
+            self.ws()
+            while t.startswith(",", self.i):
+                self.i += 1
+                parts.append(self.expr())
+                self.ws()
+            if not t.startswith(")", self.i):
+                raise du.ParseError(f"expected ) closing concat in {t!r}")
+            self.i += 1
+            return None if any(p is None for p in parts) else "".join(str(p) for p in parts)
+        m = re.compile(r"VALUES\(`?(\w+)`?\)").match(t, i)
+        if m:
+            if self.alias:
+                raise du.ParseError("VALUES() used although the row alias form is required")
+            self.i = m.end()
+            return self.prop[m.group(1)]
+        m = re.compile(r"(new|t)\.`?(\w+)`?").match(t, i)
+        if m:
+            self.i = m.end()
+            if m.group(1) == "new":
+                if not self.alias:
+                    raise du.ParseError("row alias used although VALUES() form expected")
+                return self.prop[m.group(2)]
+            return self.cur[m.group(2)]
+        m = re.compile(r"NULL\b").match(t, i)
+        if m:
+            self.i = m.end()
+            return None
+        m = re.compile(r"`?(\w+)`?").match(t, i)
+        if m and m.group(1) in self.cur:
+            self.i = m.end()
+            return self.cur[m.group(1)]
+        raise du.ParseError(f"cannot parse {t[i:i + 30]!r}")
+
+
+def check_mysql(case, ctx):
+    import sqlalchemy as sa
+    from sqlalchemy.dialects.mysql import insert as my_insert
+    from vf import fakedb
+
+    m, t = _table(sa)
+    cur = _rows_from([case["cur"]], True, "e")[0]
+    prop = _rows_from([case["row"]], True, "n")[0]
+    prop["id"] = cur["id"]
+    seen, set_ = set(), []
+    for col, e in case["set"]:
+        if col not in seen and not _uses(e, "bp"):
+            seen.add(col)
+            set_.append([col, e])
+    if not set_:
+        set_ = [["v", ["exc", "v"]]]
+    form = case["form"]
+    alias = bool(case["alias"]) and case["driver"].startswith("mysql")
+    eng, db = fakedb.recording_engine(MYSQL_DRIVERS[case["driver"]])
+    eng.dialect._requires_alias_for_on_duplicate_key = alias  # what initialize() derives from MySQL >= 8.0.20
+    try:
+        stmt = my_insert(t)
+        many = bool(case.get("many"))
+        if not many:
+            stmt = stmt.values(**prop)
+        # keys are column key strings (the documented form for MySQL; Column objects as keys are only documented for sqlite/postgresql)
+        pairs = [(col, _expr(sa, e, t, stmt, stmt.inserted)) for col, e in set_]
+        if form == "kwargs":
+            stmt = stmt.on_duplicate_key_update(**{(k if isinstance(k, str) else k.key): v for k, v in pairs})
+        elif form == "dict":
+            stmt = stmt.on_duplicate_key_update(dict(pairs))
+        else:
+            stmt = stmt.on_duplicate_key_update(pairs)
+        got = []
+        db.result_for = lambda s_, p_: got.append((s_, p_)) or None
+        with eng.connect() as conn:
+            if many:
+                other = dict(prop, id=prop["id"] + 50, note="other")
+                conn.execute(stmt, [other, prop])
+            else:
+                conn.execute(stmt)
+        ins = [(s_, p_) for s_, p_ in got if s_.lstrip().upper().startswith("INSERT")]
+        if len(ins) != 1:
+            raise Violation("C56/mysql/statement-count", f"{len(ins)} INSERT statements captured")
+        statement, params = ins[0]
+        if many:
+            if not isinstance(params, list) or len(params) != 2:
+                raise Violation("C56/mysql/executemany-shape", f"expected cursor.executemany with 2 sets, got {type(params).__name__}")
+            params = params[1]
+        # model: MySQL evaluates the assignments left to right, each seeing the previous ones
+        order = [c for c, _ in set_] if form == "tuples" else [c for c in COLS if c in {c2 for c2, _ in set_}]
+        by = dict((c, e) for c, e in set_)
+        want = dict(cur)
+        for c in order:
+            want[c] = _ev(by[c], want, prop, {})
+        ordered_matters = form == "tuples" and order != [c for c in COLS if c in by] and any(_uses(e, "tgt") for e in by.values())
+        ctx.note(case, any(_uses(e, "exc") for e in by.values()) or len(order) > 1,
+                 classes=[case["driver"], "form=" + form, "alias" if alias else "values()", "many" if many else "single", "nset=%d" % len(order)]
+                 + (["order-sensitive"] if ordered_matters else []))
+        stx = " ".join(statement.split())
+        k = stx.find(" ON DUPLICATE KEY UPDATE ")
+        if k < 0:
+            raise Violation("C56/mysql/clause-missing", stx[:300])
+        head = stx[:k]
+        if alias != head.endswith(" AS new"):
+            raise Violation("C56/mysql/alias-form", f"alias required={alias} but statement head ends {head[-20:]!r}")
+        res = du._Resolver(stx, params, eng.dialect.paramstyle)
+        base = k + len(" ON DUPLICATE KEY UPDATE ")
+        clause = stx[base:]
+        spans = du._split_item_spans(stx, base, len(stx))
+        got_row = dict(cur)
+        got_order = []
+        nbinds = 0
+        try:
+            for a, b in spans:
+                item = stx[a:b]
+                mm = re.match(r"\s*`?(\w+)`? = ", item)
+                if not mm:
+                    raise du.ParseError(f"not an assignment: {item!r}")
+                ev = _ClauseEval(item[mm.end():], a + mm.end(), res.positions, got_row, prop, alias)
+                val = ev.expr()
+                ev.ws()
+                if ev.i != len(ev.t):
+                    raise du.ParseError(f"trailing text {ev.t[ev.i:]!r}")
+                got_row[mm.group(1)] = val
+                got_order.append(mm.group(1))
+                nbinds += ev.binds
+        except du.ParseError as e:
+            raise Violation("C56/mysql/clause-not-understood", f"{e} in {clause!r}")
+        if got_order != order:
+            raise Violation("C56/mysql/assignment-order", f"assignments rendered in order {got_order}, construct says {order} (form {form})", observed=got_order, expected=order)
+        if got_row != want:
+            raise Violation("C56/mysql/assignment-value", f"evaluating the rendered clause gives {got_row}, the construct's arguments give {want}; clause {clause!r} params {params!r}",
+                            observed=got_row, expected=want)
+        # the VALUES part binds the proposed row
+        info_vals = stx[: k]
+        mcols = re.match(r"INSERT INTO t \((.*?)\) VALUES \(", info_vals)
+        if not mcols:
+            raise Violation("C56/mysql/values-not-understood", info_vals[:200])
+        cols = [c.strip().strip("`") for c in mcols.group(1).split(",")]
+        vstart = mcols.end() - 1
+        vend = du._balanced(stx, vstart)
+        vals = []
+        for a, b in du._split_item_spans(stx, vstart + 1, vend - 1):
+            lead = a + (len(stx[a:b]) - len(stx[a:b].lstrip()))
+            if lead not in res.positions:
+                raise Violation("C56/mysql/values-not-understood", stx[a:b])
+            vals.append(res.positions[lead][1])
+        if dict(zip(cols, vals)) != {c: prop[c] for c in cols}:
+            raise Violation("C56/mysql/values-binds", f"VALUES binds {dict(zip(cols, vals))}, proposed row {prop}")
+    finally:
+        eng.dispose()
+
+
+@st.composite
+def _mysql_cases(draw):
+    return {
+        "driver": draw(st.sampled_from(sorted(MYSQL_DRIVERS))), "alias": draw(st.booleans()),
+        "cur": ["none", 0, draw(st.integers(0, 9)), 1, draw(st.booleans())], "row": ["none", 0, draw(st.integers(0, 9)), draw(st.integers(0, 1)), draw(st.booleans())],
+        "set": draw(st.lists(_set_item, min_size=1, max_size=4)), "form": draw(st.sampled_from(["kwargs", "dict", "tuples", "tuples"])),
+        "many": draw(st.booleans()), "keys_as": draw(st.sampled_from(["str", "col"])),
+    }
+
+
 # ------------------------------------------------------------------ strategies
-_small = st.integers(1, 5)
-_rowspec = st.tuples(
-    st.integers(1, 6), st.one_of(st.none(), st.integers(0, 4)), st.one_of(st.none(), st.integers(0, 2)), st.one_of(st.none(), st.integers(0, 2)),
-    st.one_of(st.none(), st.integers(0, 3)), st.sampled_from([0, 1, 1]), st.integers(0, 9),
-).map(list)
+_intent = st.sampled_from(["c0"] * 14 + ["c1"] * 5 + ["none"] * 10 + ["other", "id+u"])
+_rowspec = st.tuples(_intent, st.integers(0, 11), st.integers(0, 9), st.sampled_from([0, 1, 1]), st.sampled_from([False, False, False, True])).map(list)
+_existing_spec = st.tuples(st.sampled_from(["none", "none", "none", "none", "u", "pp"]), st.integers(0, 11), st.integers(0, 9), st.sampled_from([0, 1, 1]),
+                           st.sampled_from([False, False, False, True])).map(list)
 
 _int_expr = st.one_of(
     st.sampled_from([["exc", "v"], ["tgt", "v"], ["const", 99], ["bp", "bpv"], ["exc", "a"], ["const", None]]),
-    st.sampled_from([["add", ["tgt", "v"], ["exc", "v"]], ["add", ["exc", "v"], ["const", 100]], ["add", ["tgt", "v"], ["bp", "bpv"]]]),
+    st.sampled_from([["add", ["tgt", "v"], ["exc", "v"]], ["add", ["exc", "v"], ["const", 100]], ["add", ["tgt", "v"], ["bp", "bpv"]], ["bpd", "bpv"]]),
 )
 _str_expr = st.sampled_from([["exc", "note"], ["add", ["tgt", "note"], ["exc", "note"]], ["const", "upd"], ["add", ["exc", "note"], ["const", "!"]]])
 _set_item = st.one_of(
@@ -527,11 +797,11 @@ _clause = st.one_of(
 @st.composite
 def _live_cases(draw):
     return {
-        "existing": draw(st.lists(_rowspec, min_size=0, max_size=6)),
-        "rows": draw(st.lists(_rowspec, min_size=1, max_size=8)),
+        "existing": draw(st.lists(_existing_spec, min_size=0, max_size=6)),
+        "rows": draw(st.lists(_rowspec, min_size=2, max_size=8)),
         "clauses": draw(st.lists(_clause, min_size=1, max_size=2)),
-        "mode": draw(st.sampled_from(["single_params", "single_values", "many", "many", "many_returning", "many_returning", "many_returning",
-                                      "multi_values", "multi_values_returning"])),
+        "mode": draw(st.sampled_from(["many_returning", "many", "multi_values_returning", "many_returning", "multi_values", "many", "many_returning",
+                                      "many_returning", "multi_values_returning", "single_params", "single_values"])),
         "with_id": draw(st.sampled_from([True, True, True, False])),
         "sort": draw(st.booleans()), "single_returning": draw(st.booleans()),
         "page": draw(st.integers(1, 5)), "scramble": draw(st.sampled_from(["rev", "swap", "none"])),
@@ -543,6 +813,7 @@ def _live_cases(draw):
 
 def subs(tier):
     return [
-        Generated("sqlite", check_live, strategy=_live_cases(), quick=2500, thorough=50000),
-        Generated("pg_on_sqlite", check_pg, strategy=_live_cases(), quick=1200, thorough=20000),
+        Generated("sqlite", check_live, strategy=_live_cases(), quick=2000, thorough=50000),
+        Generated("pg_on_sqlite", check_pg, strategy=_live_cases(), quick=1000, thorough=20000),
+        Generated("mysql_clause", check_mysql, strategy=_mysql_cases(), quick=800, thorough=15000),
     ]
